@@ -229,6 +229,27 @@ theorem wire_partial {ρ σ} (alg : Alg ρ σ)
     eval alg st (wireNorm q) s = eval alg st q s :=
   eval_wire alg h1 h2 q st s
 
+/-- **C08.wire_roundtrip** — the text format itself (qastle's grammar at token level: `wprint` is the model of
+`python_ast_to_text_ast`, `wparse` of the lark grammar + `text_ast_to_python_ast`): for every query the format can carry
+(`wireOK`: names are identifiers, constants are written as `repr` writes them, node tags and arities are those of
+Python's AST) parsing the printed tokens gives back the query with tuples turned into lists — nothing else is lost, for
+every size and nesting.  Together with `wire_partial`: a translator that does not tell tuple from list translates the
+query and what arrives over the wire identically.  (That the real qastle agrees with `wprint`/`wparse` token for token is
+checked on every generated query of every run.) -/
+theorem wire_roundtrip (q : Q) (toks : List String) (hok : wireOK q = true) (hp : wprint q = some toks) :
+    wparse (toks.length + 1) toks = some (wireNorm q, []) :=
+  wire_roundtrip_core q toks hok hp
+
+/-- the same inside a longer token stream, with any amount of fuel above the token count -/
+theorem wire_roundtrip_open (q : Q) (toks rest : List String) (F : Nat) (hok : wireOK q = true)
+    (hp : wprint q = some toks) (hF : toks.length < F) :
+    wparse F (toks ++ rest) = some (wireNorm q, rest) :=
+  (wparse_wprint q toks hok hp).2 rest F hF
+
+/-- non-vacuity: a query with a lambda, a method call, a tuple, a comparison and a string constant is `wireOK` -/
+example : wireOK (Q.call "Select" [.var "ds", .lam ["e"] (.node "tuple"
+    [.app (Q.attr (.var "e") "pt") [], .node "cmp:Gt" [.var "e", .lit "int:1"], .lit "str:'a'"])]) = true := by decide
+
 /-- what the text format cannot carry is refused by the printer model (`none`), e.g. an n-ary `and` (qastle re-associates
 it: listed finding) -/
 example : wprint (.node "bool:And" [.var "a", .var "b", .var "c"]) = none ∧
